@@ -89,7 +89,11 @@ namespace Pistache::Http::Experimental
                          Async::Rejection reject, OnDone onDone);
 
         Fd fd() const;
-        void handleResponsePacket(const char* buffer, size_t totalBytes);
+        // returns false when the connection can not be used any more (the response could not
+        // be parsed, or bytes arrived that no request is waiting for): the caller drops it and
+        // fails the request in flight with the reason left in responseError()
+        bool handleResponsePacket(const char* buffer, size_t totalBytes);
+        const std::string& responseError() const { return responseError_; }
         void handleError(const char* error);
         void handleTimeout();
 
@@ -125,6 +129,7 @@ namespace Pistache::Http::Experimental
 
         TimerPool timerPool_;
         ResponseParser parser;
+        std::string responseError_;
     };
 
     class ConnectionPool
